@@ -191,6 +191,7 @@ CHECKS = {
   "harnesses": [
    {"pkg": "catalog", "fn": "VerifH_OrderedMaps", "quick": {}, "thorough": {}, "instances": [{"T": t} for t in range(5)], "lock_monitor": True, "no_replay_kinds": ["lock"], "no_replay_asserts": ["C16.ordmap.update-callback-under-write-lock"]},
    {"pkg": "catalog", "fn": "VerifH_IdInjective", "quick": {"N": 3}, "thorough": {"N": 4}},
+   {"pkg": "catalog", "fn": "VerifH_IdKeyText", "quick": {"N": 2}, "thorough": {"N": 3}},
    STRUCT, STRUCT_TAGS, STRUCT_RESP,
    MSHAPE,
   ],
@@ -281,9 +282,10 @@ CHECKS = {
    {"pkg": "directive", "fn": "VerifH_UnescapeRoundTrip", "quick": {"N": 5}, "thorough": {"N": 8}},
    {"pkg": "directive", "fn": "VerifH_QuoteNeutral", "quick": {"N": 4}, "thorough": {"N": 6}},
    doc("VerifH_ParameterDoc", {"N": 3}, {"N": 4}),
+   doc("VerifH_ParameterEscapes", {"N": 4}, {"N": 6}),
   ],
   "assumptions": ["whole pipeline (VerifH_ParameterDoc): hosts Title, Version, BaseUrl, JSON-RPC Method name; the value is followed by one of: LF, blank LF, TAB LF, blank or TAB and an annotation (Method only), blank or TAB and a comment, end of input; bare values are N bytes over {a b . - @ : / *} not starting with // or /*; quoted values are N bytes over {a blank TAB \" \\ # / *} containing an 'a'; jerr.NewLocation summarised"],
-  "not_decided": ["values longer than N bytes", "the rejection clauses at document level (unterminated quote, backslash before another character): decided for the scanner by the C14 / C01 prefix instances 'Title \"'", "hosts Query example and path"],
+  "not_decided": ["values longer than N bytes", "the rejection clauses beyond VerifH_ParameterEscapes (raw quoted text of N bytes over {a \\ / n} under Title, BaseUrl, Method: a backslash before anything but a backslash is rejected at that byte, a lone backslash before the closing quote leaves the quote unterminated)", "hosts Query example and path"],
  },
  "C18": {
   "title": "Banned directives",
